@@ -1194,7 +1194,14 @@ func reproScript(h histgen.History, res result, key string) string {
 			}
 		}
 	}
-	return b.String()
+	out := b.String()
+	if strings.Contains(out, histgen.LayoutDir) {
+		// self-contained script: the configuration file of the config-file options
+		out = strings.ReplaceAll(out, histgen.LayoutDir, "$W/layouts")
+		mark := "> go.mod\n"
+		out = strings.Replace(out, mark, mark+"mkdir -p \"$W/layouts\"; cat > \"$W/layouts/server-layout.yml\" <<'VF_LAYOUT_EOF'\n"+histgen.ServerLayout+"VF_LAYOUT_EOF\n", 1)
+	}
+	return out
 }
 
 func truncated(h histgen.History, upto int) histgen.History {
@@ -1295,6 +1302,8 @@ func summarise(h histgen.History, res result) map[string]any {
 func main() {
 	c := core.New("C11")
 	ev := &env{c: c, sw: c.BuildSwagger(), tmp: filepath.Join(c.Scratch, "tmp")}
+	histgen.LayoutDir = filepath.Join(c.Scratch, "layouts")
+	core.Must(histgen.WriteLayouts())
 	core.Must(os.MkdirAll(ev.tmp, 0o755))
 
 	if c.Replay != "" {
